@@ -9,6 +9,7 @@
 package main
 
 import (
+	"context"
 	"fmt"
 	"net/http"
 	"net/http/httptest"
@@ -189,7 +190,17 @@ type resource struct {
 }
 
 func poolScenario(n, threads, rounds int, maxAge bool) vx.Scenario {
+	return poolScenarioPanic(n, threads, rounds, maxAge, false)
+}
+
+// destroyPanics: the destroy callback panics the first time it is called (closing a broken
+// connection); the Get that ran it recovers. The expired resource is gone either way, so its
+// slot must be free again.
+func poolScenarioPanic(n, threads, rounds int, maxAge, destroyPanics bool) vx.Scenario {
 	name := fmt.Sprintf("pool-n%d-t%d-r%d-age%v", n, threads, rounds, maxAge)
+	if destroyPanics {
+		name += "-destroy-panics"
+	}
 	body := func() {
 		s := &st{}
 		vsched.SetUser(s)
@@ -214,6 +225,9 @@ func poolScenario(n, threads, rounds int, maxAge bool) vx.Scenario {
 			if r.users > 0 {
 				s.fail("pool-destroy-in-use", "resource %d destroyed while in use", r.id)
 			}
+			if destroyPanics && len(all)-live == 1 {
+				panic("destroy failed")
+			}
 		}
 		var p *syncx.Pool
 		if maxAge {
@@ -221,8 +235,19 @@ func poolScenario(n, threads, rounds int, maxAge bool) vx.Scenario {
 		} else {
 			p = syncx.NewPool(n, create, destroy)
 		}
+		get := func() (r *resource) {
+			defer func() {
+				if x := recover(); x != nil {
+					if !destroyPanics {
+						panic(x)
+					}
+					r = p.Get().(*resource) // the caller recovers and tries again
+				}
+			}()
+			return p.Get().(*resource)
+		}
 		use := func(who string) {
-			r := p.Get().(*resource)
+			r := get()
 			r.users++
 			if r.users > 1 {
 				s.fail("pool-shared-resource", "resource %d handed to two users at once (%s)", r.id, who)
@@ -252,7 +277,7 @@ func poolScenario(n, threads, rounds int, maxAge bool) vx.Scenario {
 		// full capacity available: n Gets succeed without blocking (a block shows as deadlock)
 		var out []*resource
 		for i := 0; i < n; i++ {
-			r := p.Get().(*resource)
+			r := get()
 			if r.destroyed > 0 {
 				s.fail("pool-destroyed-handed-out", "resource %d handed out after being destroyed", r.id)
 			}
@@ -383,6 +408,18 @@ func maxConnsScenarioKinds(n, reqs int, gate bool, panicAt int, kinds []string) 
 					req.Header.Set("Connection", "Upgrade")
 				case "sse":
 					req.Header.Set("Accept", "text/event-stream")
+				case "gone":
+					// the client goes away while the request is being handled: its context is
+					// cancelled by another thread at a moment the explorer chooses; the handler
+					// does not watch it, so the request keeps counting until the handler returns
+					if idx < reqs {
+						ctx, cancel := vsched.CtxWithCancel(context.Background())
+						req = req.WithContext(ctx)
+						vsched.GoNamed(fmt.Sprintf("client%d-gone", idx), true, func() {
+							vsched.Op("client-goes-away")
+							cancel()
+						})
+					}
 				}
 			}
 			h.ServeHTTP(rec, req)
@@ -572,10 +609,11 @@ func main() {
 	for _, n := range []int{1, 2} {
 		sc = append(sc, limitScenario(n, "BBB"), limitScenario(n, "TTT"), limitScenario(n, "BTB"))
 		sc = append(sc, timeoutLimitScenario(n, 3))
-		sc = append(sc, poolScenario(n, 3, 1, false), poolScenario(n, 2, 2, false), poolScenario(n, 2, 2, true))
+		sc = append(sc, poolScenario(n, 3, 1, false), poolScenario(n, 2, 2, false), poolScenario(n, 2, 2, true), poolScenarioPanic(n, 2, 2, true, true))
 		sc = append(sc, taskRunnerScenario(n, 3, true, true, -1), taskRunnerScenario(n, 3, true, false, 1), taskRunnerScenario(n, 3, false, false, -1), taskRunnerScenario(n, 3, false, false, 0))
 		sc = append(sc, maxConnsScenario(n, 3, true, -1), maxConnsScenario(n, 3, false, 1), maxConnsScenario(n, 3, false, -1))
 		sc = append(sc, maxConnsScenarioKinds(n, 3, true, -1, []string{"websocket", "", "sse"}), maxConnsScenarioKinds(n, 3, true, -1, []string{"sse", "websocket"}))
+		sc = append(sc, maxConnsScenarioKinds(n, 3, true, -1, []string{"gone", "", ""}), maxConnsScenarioKinds(n, 3, false, -1, []string{"gone", "gone", ""}))
 		for _, k := range []string{"mr.ForEach", "mr.MapReduce", "fx.Walk", "fx.Parallel"} {
 			sc = append(sc, workersScenario(k, n, 3, -1))
 		}
